@@ -69,6 +69,15 @@ theorem gate_ok_iff (id : String) (role : Role) (segs : List String) (p : Permis
     simp only [checkPerm, Option.some.injEq, exists_eq_left']
     by_cases h : role.isAllowed p res = true <;> simp [h]
 
+/-- `is_allowed` is membership in `permissions(role, resource)`. -/
+theorem isAllowed_iff_mem_perms (r : Role) (p : Permission) (res : Option Handle) :
+    r.isAllowed p res = true ↔ p ∈ r.perms res := by
+  cases res with
+  | none => simp [Role.isAllowed, Role.perms, has]
+  | some h =>
+    simp only [Role.isAllowed, Role.perms]
+    cases r.entry h <;> simp [has]
+
 theorem has_nil (p : Permission) : has [] p = false := by
   simp [has]
 
